@@ -63,6 +63,12 @@ pub enum Platform {
 impl Platform {
     #[allow(unreachable_code)]
     pub fn detect() -> Self {
+        #[cfg(blake3_team_blake3_verif)]
+        {
+            if let Some(forced) = verif_forced_platform() {
+                return forced;
+            }
+        }
         #[cfg(miri)]
         {
             return Platform::Portable;
@@ -540,4 +546,86 @@ pub fn le_bytes_from_words_64(words: &[u32; 16]) -> [u8; 64] {
     *array_mut_ref!(out, 14 * 4, 4) = words[14].to_le_bytes();
     *array_mut_ref!(out, 15 * 4, 4) = words[15].to_le_bytes();
     out
+}
+
+// ---------------------------------------------------------------------------
+// Verification hook (compiled only with `--cfg blake3_team_blake3_verif`).
+//
+// A platform override consulted first by `Platform::detect()`, so that a single
+// build can run the whole crate at every SIMD level. The caller is responsible
+// for only forcing a platform that the CPU (or interpreter) actually supports.
+// The thread-local override (std only) takes priority over the process-global
+// one.
+// ---------------------------------------------------------------------------
+#[cfg(blake3_team_blake3_verif)]
+static VERIF_GLOBAL_PLATFORM: core::sync::atomic::AtomicU8 = core::sync::atomic::AtomicU8::new(0);
+
+#[cfg(all(blake3_team_blake3_verif, feature = "std"))]
+std::thread_local! {
+    static VERIF_THREAD_PLATFORM: core::cell::Cell<u8> = const { core::cell::Cell::new(0) };
+}
+
+#[cfg(blake3_team_blake3_verif)]
+fn verif_platform_code(platform: Option<Platform>) -> u8 {
+    match platform {
+        None => 0,
+        Some(Platform::Portable) => 1,
+        #[cfg(any(target_arch = "x86", target_arch = "x86_64"))]
+        Some(Platform::SSE2) => 2,
+        #[cfg(any(target_arch = "x86", target_arch = "x86_64"))]
+        Some(Platform::SSE41) => 3,
+        #[cfg(any(target_arch = "x86", target_arch = "x86_64"))]
+        Some(Platform::AVX2) => 4,
+        #[cfg(blake3_avx512_ffi)]
+        #[cfg(any(target_arch = "x86", target_arch = "x86_64"))]
+        Some(Platform::AVX512) => 5,
+        #[allow(unreachable_patterns)]
+        Some(_) => 0,
+    }
+}
+
+#[cfg(blake3_team_blake3_verif)]
+fn verif_platform_from_code(code: u8) -> Option<Platform> {
+    match code {
+        1 => Some(Platform::Portable),
+        #[cfg(any(target_arch = "x86", target_arch = "x86_64"))]
+        2 => Some(Platform::SSE2),
+        #[cfg(any(target_arch = "x86", target_arch = "x86_64"))]
+        3 => Some(Platform::SSE41),
+        #[cfg(any(target_arch = "x86", target_arch = "x86_64"))]
+        4 => Some(Platform::AVX2),
+        #[cfg(blake3_avx512_ffi)]
+        #[cfg(any(target_arch = "x86", target_arch = "x86_64"))]
+        5 => Some(Platform::AVX512),
+        _ => None,
+    }
+}
+
+/// Verification hook: force (or with `None`, stop forcing) the platform returned by
+/// `Platform::detect()` for the whole process.
+#[cfg(blake3_team_blake3_verif)]
+pub fn verif_force_platform_global(platform: Option<Platform>) {
+    VERIF_GLOBAL_PLATFORM.store(
+        verif_platform_code(platform),
+        core::sync::atomic::Ordering::SeqCst,
+    );
+}
+
+/// Verification hook: force (or with `None`, stop forcing) the platform returned by
+/// `Platform::detect()` on the calling thread.
+#[cfg(all(blake3_team_blake3_verif, feature = "std"))]
+pub fn verif_force_platform(platform: Option<Platform>) {
+    VERIF_THREAD_PLATFORM.with(|p| p.set(verif_platform_code(platform)));
+}
+
+#[cfg(blake3_team_blake3_verif)]
+fn verif_forced_platform() -> Option<Platform> {
+    #[cfg(feature = "std")]
+    {
+        let code = VERIF_THREAD_PLATFORM.with(|p| p.get());
+        if code != 0 {
+            return verif_platform_from_code(code);
+        }
+    }
+    verif_platform_from_code(VERIF_GLOBAL_PLATFORM.load(core::sync::atomic::Ordering::SeqCst))
 }
